@@ -8,8 +8,11 @@ import time
 import traceback
 
 VERIF = os.path.dirname(os.path.dirname(os.path.abspath(__file__)))
-EVID = os.path.join(VERIF, "evidence")
-REPLAYS = os.path.join(VERIF, "replays")
+# a scratch copy of the repository (VERIF_REPO=<dir>, mutation experiments) never overwrites the
+# evidence / replays of the real tree
+_SCRATCH = os.environ.get("VERIF_REPO", "/repo") != "/repo"
+EVID = os.path.join(VERIF, "build", "scratch-evidence") if _SCRATCH else os.path.join(VERIF, "evidence")
+REPLAYS = os.path.join(VERIF, "build", "scratch-replays") if _SCRATCH else os.path.join(VERIF, "replays")
 KNOWN = os.path.join(VERIF, "known_findings.json")
 
 
